@@ -40,7 +40,9 @@ TOL_ANALYTIC = 1e-7  # closed-form cantilever (round-off floor of the SEG5 Hermi
 # ------------------------------------------------------------------------------------------------
 # "rot180_origin" / "mirror_x_origin": motions that map the coordinate axes onto themselves REVERSED (a member lying on the x axis stays on
 # the x axis and points towards -x: the mesh keeps its embedding dimension, which the library keys on)
-MOTIONS_2D = ["translation", "rot90", "rot180", "rot_generic", "reflection", "rotrefl", "rot180_origin", "mirror_x_origin"]
+# "flip_inplane_axis" / "turn360": a half turn about an axis lying IN the plane of a 2D problem (an in-plane reflection carried out as a rotation)
+# and a full turn about such an axis (the identity): both leave the body in its plane up to round-off (|z| ~ 1e-16)
+MOTIONS_2D = ["translation", "rot90", "rot180", "rot_generic", "reflection", "rotrefl", "rot180_origin", "mirror_x_origin", "flip_inplane_axis", "turn360"]
 MOTIONS_3D = ["translation", "rot90", "rot90x", "rot_generic", "axis_angle", "reflection", "rotrefl", "rot180_origin", "mirror_x_origin"]
 
 
@@ -84,6 +86,10 @@ def motion_ops(name: str, sdim: int) -> list[dict]:
         return [{"op": "rotate", "deg": 90.0, "center": cen(), "axis": z}]
     if name == "rot180":
         return [{"op": "rotate", "deg": 180.0, "center": cen(), "axis": z}]
+    if name == "flip_inplane_axis":
+        return [{"op": "rotate", "deg": 180.0, "center": cen(), "axis": np.array([1.0, 0.0, 0.0])}]
+    if name == "turn360":
+        return [{"op": "rotate", "deg": 360.0, "center": cen(), "axis": _unit([1.0, 1.0, 0.0])}]
     if name == "rot180_origin":
         return [{"op": "rotate", "deg": 180.0, "center": np.zeros(3), "axis": z}]
     if name == "mirror_x_origin":
@@ -867,7 +873,7 @@ def _node_rotation_block(Q, dim):
     if dim == 2:
         B = np.zeros((3, 3))
         B[:2, :2] = Q[:2, :2]
-        B[2, 2] = det
+        B[2, 2] = det * Q[2, 2]  # (a half turn about an in-plane axis has det +1 and Q_zz = -1)
         return B
     B = np.zeros((6, 6))
     B[:3, :3] = Q
